@@ -1140,6 +1140,8 @@ func main() {
 	nl := r.N(16, 64)
 	vh.Parallel(nl, 8, func(i int) { listenTrial(r, bin, i) })
 	r.Require("listen_trials", int64(nl/2))
+	nco := r.N(6, 40)
+	vh.Parallel(nco, 3, func(i int) { convertedOffTrial(r, i) })
 	r.Count("cases", nd+nt+nr+nbin+nsig+nl)
 	r.Require("default_trials", int64(nd))
 	r.Require("inproc_table_trials", int64(nt*3/4))
